@@ -23,12 +23,23 @@
 (*  - time is abstract: the fallback timer may fire whenever the loop      *)
 (*    waits, results arrive in any order.  "fast" and "slow" answers are    *)
 (*    the same step here; the conformance binding makes them differ.        *)
-(*  - the circuit breaker, the bogus-referral (configErrors) branch and    *)
-(*    request-local exits (work budget, attempt guard, cancellation:        *)
-(*    FailureCache.tla's admission filter) are left out: every server is    *)
-(*    reachable policy-wise.  The exploration probe is in: authority.Sort   *)
-(*    may spend the second slot on a probe, and a probe is one attempt      *)
-(*    (no retry, no EDNS-less second try).                                  *)
+(*  - the circuit breaker and request-local exits (work budget, attempt    *)
+(*    guard, cancellation) are left out HERE: every server is reachable     *)
+(*    policy-wise within one tree.  They are the subject of ZoneBrk.tla     *)
+(*    (this directory): a HISTORY of request trees against one zone, the    *)
+(*    breaker and the zone failure as the state the trees share.            *)
+(*    The exploration probe is in: authority.Sort may spend the second      *)
+(*    slot on a probe, and a probe is one attempt (no retry, no EDNS-less   *)
+(*    second try).                                                          *)
+(*  - the bogus-referral branch is in: "badref" = a NOERROR referral that   *)
+(*    does not progress (configErrors); when nothing better came back the   *)
+(*    resolution ends in an ERROR (errParentDetection), not in a reply: the *)
+(*    client sees SERVFAIL, a QUESTION failure is recorded, no zone failure.*)
+(*    That error path is where the handler rebuilds the reply from the      *)
+(*    request it had modified for the upstream walk (CD forced to 1 with    *)
+(*    DNSSEC off), so the follow-up "otherCD" asks the same question under  *)
+(*    the other CD value: a question failure applies to exactly the CD      *)
+(*    value that failed (QKeyCD = "client"; "forced" is the mutant).        *)
 (*  - an attempt is one atomic step (ask + what came back).                 *)
 (***************************************************************************)
 EXTENDS Integers, FiniteSets, Sequences, TLC
@@ -40,11 +51,17 @@ CONSTANTS
   Enabled,   \* rfc9520
   EarlyExit  \* "code": the early exit as written; "anyThird": mutant (A), parentheses lost
 
-Behaviours == {"fast", "slow", "nxdomain", "servfail", "refused", "formerr", "drop", "garbage"}
+Behaviours == {"fast", "slow", "nxdomain", "servfail", "refused", "formerr", "drop", "garbage", "badref"}
 Useful(b)  == b \in {"fast", "slow", "nxdomain"}      \* a usable response: the server did its job
 NetFail(b) == b \in {"drop", "garbage"}               \* no reply / unusable datagram / connection error
 ASSUME \A sc \in Scripts : Len(sc) >= 1 /\ \A i \in 1..Len(sc) : sc[i] \in Behaviours
 ASSUME EarlyExit \in {"code", "anyThird"}
+
+(* which CD value the client-visible SERVFAIL of an ERROR-path resolution is filed under: the client's
+   (handler.go restores the request's CD bit before it builds the reply) or the one forced for the
+   upstream walk with DNSSEC off (the restore skipped when there is no response to restore it on).
+   A definition, not a constant: the negative config overrides it (QKeyCD <- QKeyForced). *)
+QKeyCD == "client"
 
 Servers == 1..N
 
@@ -56,23 +73,25 @@ VARIABLES
   att,     \* [Servers -> 0..4]  attempts made on the server
   rt,      \* [Servers -> 0..2]  exchange's `retried`
   ed,      \* [Servers -> BOOLEAN] the next attempt carries EDNS
-  out,     \* [Servers -> {"-","ok","nx","rcode","neterr"}] what queryServer hands to the loop
+  out,     \* [Servers -> {"-","ok","nx","rcode","conf","neterr"}] what queryServer hands to the loop
   good,    \* [Servers -> BOOLEAN] ghost: some attempt on the server got a usable response
   nerr,    \* len(responseErrors)
   nfatal,  \* len(fatalErrors) > 0
   hasNX,   \* an NXDOMAIN sits in responseErrors
+  hasConf, \* len(configErrors) > 0: a non-progressing referral came back
   pc,      \* "launch" | "wait" | "ret" | "done"
-  ret,     \* "-" | "answer" | "nxdomain" | "rcodefail" | "netfail"
+  ret,     \* "-" | "answer" | "nxdomain" | "rcodefail" | "badref" | "netfail"
   zoneRec, \* the zone failure is published
   qRec,    \* the question failure is published (the client saw SERVFAIL)
   fkind, fhit  \* follow-up question asked after the request, and whether the failure cache served it
 
-vars == <<script, probe, idx, st, att, rt, ed, out, good, nerr, nfatal, hasNX, pc, ret, zoneRec, qRec, fkind, fhit>>
+vars == <<script, probe, idx, st, att, rt, ed, out, good, nerr, nfatal, hasNX, hasConf, pc, ret, zoneRec, qRec, fkind, fhit>>
 
 BehAt(s, i) == LET sc == script[s] IN sc[IF i <= Len(sc) THEN i ELSE Len(sc)]
 Taken  == {s \in Servers : st[s] = "taken"}
 Left   == N - Cardinality(Taken)
-Failed == {"rcodefail", "netfail"}
+Failed == {"rcodefail", "netfail"}      \* every server failed: the zone is published
+ErrorPath == {"badref"}                   \* the resolution ends in an error that says nothing zone-wide
 
 InitWith(sc, pr) ==
   /\ script = sc /\ probe = pr
@@ -83,14 +102,14 @@ InitWith(sc, pr) ==
   /\ ed = [s \in Servers |-> TRUE]
   /\ out = [s \in Servers |-> "-"]
   /\ good = [s \in Servers |-> FALSE]
-  /\ nerr = 0 /\ nfatal = FALSE /\ hasNX = FALSE
+  /\ nerr = 0 /\ nfatal = FALSE /\ hasNX = FALSE /\ hasConf = FALSE
   /\ pc = "launch" /\ ret = "-"
   /\ zoneRec = FALSE /\ qRec = FALSE
   /\ fkind = "-" /\ fhit = FALSE
 Probes == IF N >= 2 THEN {0, 2} ELSE {0}
 Init == \E sc \in [Servers -> Scripts], pr \in Probes : InitWith(sc, pr)
 
-loopv == <<idx, nerr, nfatal, hasNX, pc, ret>>
+loopv == <<idx, nerr, nfatal, hasNX, hasConf, pc, ret>>
 srvv  == <<att, rt, ed, out, good>>
 tail  == <<zoneRec, qRec, fkind, fhit>>
 
@@ -101,7 +120,7 @@ Launch ==
   /\ idx' = idx + 1
   /\ st' = [st EXCEPT ![idx + 1] = "run"]
   /\ pc' = IF idx + 1 = 1 /\ N >= 2 THEN "launch" ELSE "wait"
-  /\ UNCHANGED <<script, probe, nerr, nfatal, hasNX, ret, srvv, tail>>
+  /\ UNCHANGED <<script, probe, nerr, nfatal, hasNX, hasConf, ret, srvv, tail>>
 
 (* Resolver.exchange, one attempt on server s *)
 Attempt(s) ==
@@ -115,6 +134,8 @@ Attempt(s) ==
                /\ out' = [out EXCEPT ![s] = "nx"] /\ st' = [st EXCEPT ![s] = "ready"] /\ UNCHANGED <<rt, ed>>
           [] b \in {"servfail", "refused"} ->
                /\ out' = [out EXCEPT ![s] = "rcode"] /\ st' = [st EXCEPT ![s] = "ready"] /\ UNCHANGED <<rt, ed>>
+          [] b = "badref" ->    \* NOERROR, no answer, an NS set that is not strictly below the zone on the way to the name
+               /\ out' = [out EXCEPT ![s] = "conf"] /\ st' = [st EXCEPT ![s] = "ready"] /\ UNCHANGED <<rt, ed>>
           [] b = "formerr" ->
                IF ed[s] /\ s # probe   \* "try again without edns tags": the attempt is replaced, `retried` untouched
                  THEN ed' = [ed EXCEPT ![s] = FALSE] /\ UNCHANGED <<out, st, rt>>
@@ -129,10 +150,11 @@ Attempt(s) ==
 Timer ==
   /\ pc = "wait" /\ idx < N
   /\ pc' = "launch"
-  /\ UNCHANGED <<script, probe, idx, st, nerr, nfatal, hasNX, ret, srvv, tail>>
+  /\ UNCHANGED <<script, probe, idx, st, nerr, nfatal, hasNX, hasConf, ret, srvv, tail>>
 
-(* pickFallbackResponse: NXDOMAIN first, then any negative response, then the connection error *)
-Fallback(nx, ne) == IF nx THEN "nxdomain" ELSE IF ne > 0 THEN "rcodefail" ELSE "netfail"
+(* pickFallbackResponse: NXDOMAIN first, then any negative response, then the bogus-delegation list (which
+   processDelegation turns into errParentDetection), then the connection error *)
+Fallback(nx, ne, cf) == IF nx THEN "nxdomain" ELSE IF ne > 0 THEN "rcodefail" ELSE IF cf THEN "badref" ELSE "netfail"
 
 (* "we don't need to look all nameservers for that response" *)
 Exit(ne, o) ==
@@ -148,30 +170,37 @@ Receive(s) ==
          ne   == IF o \in {"rcode", "nx"} THEN nerr + 1 ELSE nerr
          nx   == hasNX \/ o = "nx"
          nf   == nfatal \/ o = "neterr"
-     IN /\ nerr' = ne /\ hasNX' = nx /\ nfatal' = nf
+         cf   == hasConf \/ o = "conf"
+     IN /\ nerr' = ne /\ hasNX' = nx /\ nfatal' = nf /\ hasConf' = cf
         /\ IF o = "ok" THEN pc' = "ret" /\ ret' = "answer"
-           ELSE IF o \in {"rcode", "nx"} /\ Exit(ne, o) THEN pc' = "ret" /\ ret' = Fallback(nx, ne)   \* break mainloop
+           ELSE IF o \in {"rcode", "nx"} /\ Exit(ne, o) THEN pc' = "ret" /\ ret' = Fallback(nx, ne, cf) \* break mainloop
            ELSE IF idx = N /\ left > 0 THEN pc' = "wait" /\ ret' = ret                                \* continue fallbackloop
-           ELSE IF idx = N THEN pc' = "ret" /\ ret' = Fallback(nx, ne)                                \* loop over
+           ELSE IF idx = N THEN pc' = "ret" /\ ret' = Fallback(nx, ne, cf)                            \* loop over
            ELSE pc' = "launch" /\ ret' = ret                                                          \* continue mainloop
   /\ UNCHANGED <<script, probe, idx, srvv, tail>>
 
 (* Resolver.resolve (failure rcode, no records, not minimized) / handleLookupError (fatal):
-   recordResolutionZoneFailure; the cache records the client-visible SERVFAIL for the question *)
+   recordResolutionZoneFailure; the cache records the client-visible SERVFAIL for the question
+   (also when the resolution ended in an error that publishes nothing for the zone) *)
 Publish ==
   /\ pc = "ret"
   /\ pc' = "done"
   /\ zoneRec' = (Enabled /\ ret \in Failed)
-  /\ qRec' = (Enabled /\ ret \in Failed)
-  /\ UNCHANGED <<script, probe, idx, st, nerr, nfatal, hasNX, ret, srvv, fkind, fhit>>
+  /\ qRec' = (Enabled /\ ret \in Failed \cup ErrorPath)
+  /\ UNCHANGED <<script, probe, idx, st, nerr, nfatal, hasNX, hasConf, ret, srvv, fkind, fhit>>
 
-(* follow-up questions while the back-off runs: FailureCache.Lookup = exact question, else
-   the closest failed zone at or above the name *)
-FollowKinds == {"same", "sibling", "otherType", "otherZone"}
+(* follow-up questions while the back-off runs: FailureCache.Lookup = exact question (name, type,
+   class, CD, audience), else the closest failed zone at or above the name (a zone failure is not
+   partitioned by CD).  The request under test carries CD = 0; "otherCD" is the same question with
+   CD = 1.  On the reply path the failure is filed under the client's CD; on the error path under
+   QKeyCD. *)
+FollowKinds == {"same", "sibling", "otherType", "otherZone", "otherCD"}
+QFiledUnderClientCD == ret \in Failed \/ QKeyCD = "client"
 Follow(k) ==
   /\ pc = "done" /\ fkind = "-"
   /\ fkind' = k
-  /\ fhit' = CASE k = "same" -> qRec \/ zoneRec
+  /\ fhit' = CASE k = "same" -> (qRec /\ QFiledUnderClientCD) \/ zoneRec
+               [] k = "otherCD" -> (qRec /\ ~QFiledUnderClientCD) \/ zoneRec
                [] k \in {"sibling", "otherType"} -> zoneRec
                [] OTHER -> FALSE
   /\ UNCHANGED <<script, probe, idx, st, loopv, srvv, zoneRec, qRec>>
@@ -189,9 +218,9 @@ TypeOK ==
   /\ st \in [Servers -> {"idle", "run", "ready", "taken"}]
   /\ att \in [Servers -> 0..4] /\ rt \in [Servers -> 0..2] /\ probe \in {0, 2}
   /\ (probe # 0 => att[probe] <= 1)
-  /\ out \in [Servers -> {"-", "ok", "nx", "rcode", "neterr"}]
+  /\ out \in [Servers -> {"-", "ok", "nx", "rcode", "conf", "neterr"}]
   /\ pc \in {"launch", "wait", "ret", "done"}
-  /\ ret \in {"-", "answer", "nxdomain"} \cup Failed
+  /\ ret \in {"-", "answer", "nxdomain"} \cup Failed \cup ErrorPath
 
 (* ground truth, as the scripted servers' own logs give it: a server is healthy for this request
    if an attempt made on it got a usable response, or if it was never asked / is being asked and
@@ -202,15 +231,17 @@ Healthy(s) == good[s] \/ (st[s] \in {"idle", "run"} /\ Useful(BehAt(s, att[s] + 
    usable response on every attempt of the request tree *)
 OnlyWhatFailed == zoneRec => \A s \in Servers : ~Healthy(s)
 (* implementation-shaped and stronger: every server was asked and its verdict was read *)
-AllAsked == zoneRec => \A s \in Servers : st[s] = "taken" /\ out[s] \in {"rcode", "neterr"}
-QuestionOnlyIfFailed == qRec => ret \in Failed
+AllAsked == zoneRec => \A s \in Servers : st[s] = "taken" /\ out[s] \in {"rcode", "conf", "neterr"}
+QuestionOnlyIfFailed == qRec => ret \in Failed \cup ErrorPath
+(* a bogus referral alone never publishes the zone *)
+ErrorPathNotZone == ret \in ErrorPath => ~zoneRec
 
 (* what one server's script comes to under exchange's retry rules *)
 RECURSIVE Final(_, _, _, _, _)
 Final(sc, i, r, e, once) ==
   LET b == sc[IF i <= Len(sc) THEN i ELSE Len(sc)] IN
   IF Useful(b) THEN "useful"
-  ELSE IF b \in {"servfail", "refused"} \/ once THEN "failed"
+  ELSE IF b \in {"servfail", "refused", "badref"} \/ once THEN "failed"
   ELSE IF b = "formerr" THEN (IF e THEN Final(sc, i + 1, r, FALSE, once) ELSE "failed")
   ELSE IF r < 2 THEN Final(sc, i + 1, r + 1, e, once) ELSE "failed"
 AnyUseful == \E s \in Servers : Final(script[s], 1, 0, TRUE, s = probe) = "useful"
@@ -219,8 +250,10 @@ Verdict == pc \in {"ret", "done"} => (ret \in {"answer", "nxdomain"} <=> AnyUsef
 
 (* follow-ups: a cached failure answers only what failed *)
 Containment ==
-  fhit => CASE fkind = "same" -> ret \in Failed
+  fhit => CASE fkind = "same" -> ret \in Failed \cup ErrorPath
             [] fkind \in {"sibling", "otherType"} -> \A s \in Servers : ~Healthy(s)
+            \* the other CD value never failed: only a zone failure may answer it
+            [] fkind = "otherCD" -> ret \in Failed /\ \A s \in Servers : ~Healthy(s)
             [] OTHER -> FALSE
 KillSwitch == ~Enabled => (~zoneRec /\ ~qRec /\ ~fhit)
 
